@@ -64,7 +64,12 @@ def main(argv: list[str]) -> int:
         patches = [p for p in patches if any(a in os.path.basename(p) for a in argv)]
     missed = 0
     for p in patches:
-        caught, detail, dt = run_one(p)
+        try:
+            caught, detail, dt = run_one(p)
+        except RuntimeError as e:
+            print(f"STALE  {os.path.basename(p)} {str(e)[:200]}", flush=True)
+            missed += 1
+            continue
         print(f"{'CAUGHT' if caught else 'MISSED'} {os.path.basename(p)} ({dt:.0f}s) {detail[:400]}", flush=True)
         if not caught:
             missed += 1
